@@ -1,8 +1,13 @@
 /-
-Proofs/LoopOld — the consumer order of the tree tagged `pinned-base` (emptiness test first, step
-read second) loses the last item: an explicit schedule for one consumer.
+Proofs/LoopOld — two explicit schedules.
+
+1. The consumer order of the tree tagged `pinned-base` (emptiness test first, step read second) loses
+   the last item: a schedule for one consumer.
+2. The current code after a kill: with a full channel and every consumer gone, a producer stays
+   blocked in its send for ever (a goroutine leak; `Wait` has returned): a schedule for one
+   consumer, three files and channel capacity 1.
 -/
-import Goat.Proofs.LoopCor
+import Goat.Proofs.LoopTerm
 
 namespace Goat.Loop
 open Goat.LTS
@@ -13,25 +18,93 @@ def oldParams : Params := { capD := 1000, capF := 1000, failCb := fun _ _ => fal
 /-- the repaired order, same parameters -/
 def newParams : Params := { oldParams with fixedOrder := true }
 
-/-- one producer, one file -/
-def oneFile : List PAct := [.list "./" false true, .send false "./a"]
+/-- no filters, both callbacks set -/
+def plainCfg : WalkCfg := { fileFilter := none, dirFilter := none, onFile := true, onDir := true }
+
+/-- one producer, one file: `ReadDir("./")`, send, kill test -/
+def oneFile : List PAct := [.list "./" false true 0, .send false "./a", .chk 0]
+
+theorem oneFile_eq : rootProg plainCfg (fun _ => false) "./" true (.cons "a" .file .nil) = oneFile := by
+  rfl
 
 /-- the consumer finds both queues empty (3 actions) and is then held in the gap before its step
-read; the producer lists the root and sends the file; the closer sees the producers done and
-announces; the consumer reads the step, sees `StepClose`, returns and signs off -/
+read; the producer lists the root, sends the file, tests the kill flag and signs off; the closer
+sees the producer pool empty and announces; the consumer reads the step, sees `StepClose`, returns
+and signs off -/
 def lostSchedule : List Label :=
-  [.cons 0, .cons 0, .cons 0, .prod, .prod, .closer, .closer, .cons 0, .cons 0]
+  [.cons 0, .cons 0, .cons 0, .prod 0, .prod 0, .prod 0, .prod 0, .closer, .closer, .cons 0, .cons 0]
 
 theorem lost_item_state :
     let s := (sys oldParams oneFile 1).run lostSchedule
-    s.poolCtr = 0 ∧ s.cons = [PC.exited] ∧ s.qf = ["./a"] ∧ s.done = [] ∧ s.errors = [] ∧ s.killed = false := by
+    s.poolCtr = 0 ∧ s.cons = [PC.exited] ∧ s.qf = ["./a"] ∧ s.done = [] ∧ errorsOf s = [] ∧ s.killed = false := by
   decide
 
 /-- the same schedule under the repaired order: the consumer is held after its step read (which
 saw "not closed"), then finds the file -/
 theorem same_schedule_repaired :
     let s := (sys newParams oneFile 1).run (lostSchedule ++ List.replicate 12 (.cons 0))
-    s.poolCtr = 0 ∧ s.cons = [PC.exited] ∧ s.qf = [] ∧ s.done = [(false, "./a")] ∧ s.errors = [] := by
+    s.poolCtr = 0 ∧ s.cons = [PC.exited] ∧ s.qf = [] ∧ s.done = [(false, "./a")] ∧ errorsOf s = [] := by
   decide
+
+/-! ### a producer left behind after a kill -/
+
+/-- capacity 1, the callback on `./a` fails -/
+def tinyParams : Params := { capD := 1, capF := 1, failCb := fun _ p => p == "./a", fixedOrder := true }
+
+/-- three files -/
+def threeFiles : List PAct :=
+  [.list "./" false true 0, .send false "./a", .chk 4, .send false "./b", .chk 2, .send false "./c", .chk 0]
+
+theorem threeFiles_eq : rootProg plainCfg (fun _ => false) "./" true
+    (.cons "a" .file (.cons "b" .file (.cons "c" .file .nil))) = threeFiles := by
+  rfl
+
+/-- the producer lists the root and sends `a`; the consumer receives it and is inside the callback;
+the producer sends `b` (the channel is full again) and blocks sending `c`; the callback fails, the
+consumer reports the error (which kills the lifecycle), sees the kill at the top of its loop,
+leaves and signs off -/
+def stuckSchedule : List Label :=
+  [.prod 0, .prod 0, .prod 0] ++ List.replicate 7 (.cons 0) ++ [.prod 0, .prod 0, .prod 0]
+    ++ List.replicate 4 (.cons 0)
+
+/-- `Bool` form of `BlockedSend` on the head of producer `j` -/
+def blockedB (P : Params) (s : St) (j : Nat) : Bool :=
+  match s.prods[j]? with
+  | some (.run (.send true _ :: _)) => decide (P.capD ≤ s.qd.length)
+  | some (.run (.send false _ :: _)) => decide (P.capF ≤ s.qf.length)
+  | _ => false
+
+theorem blockedB_spec {P : Params} {s : St} {j : Nat} (h : blockedB P s j = true) :
+    ∃ pr, s.prods[j]? = some pr ∧ BlockedSend P s pr := by
+  unfold blockedB at h
+  split at h
+  · rename_i p r heq; exact ⟨_, heq, by simpa [BlockedSend] using h⟩
+  · rename_i p r heq; exact ⟨_, heq, by simpa [BlockedSend] using h⟩
+  · cases h
+
+theorem stuck_state :
+    let s := (sys tinyParams threeFiles 1).run stuckSchedule
+    s.poolCtr = 0 ∧ s.cons = [PC.exited] ∧ s.killed = true ∧ s.qf = ["./b"] ∧ s.done = [(false, "./a")]
+      ∧ errorsOf s = [.cb false "./a", .canceled] ∧ s.closer = .waiting ∧ s.ppool = 1
+      ∧ blockedB tinyParams s 0 = true := by
+  decide
+
+/-- from that state on, whatever happens: producer 0 stays blocked in its send, the producer pool
+never empties, the closer never leaves `producerPool.Wait()` -/
+theorem stuck_forever (more : List Label) :
+    let t := (sys tinyParams threeFiles 1).runFrom ((sys tinyParams threeFiles 1).run stuckSchedule) more
+    (∃ pr, t.prods[0]? = some pr ∧ BlockedSend tinyParams t pr) ∧ t.ppool ≠ 0 ∧ t.closer = .waiting := by
+  intro t
+  have hs := stuck_state
+  obtain ⟨pr, hj, hb⟩ := blockedB_spec hs.2.2.2.2.2.2.2.2
+  have hall : AllExited ((sys tinyParams threeFiles 1).run stuckSchedule) := by
+    intro pc hpc; rw [hs.2.1] at hpc; simpa using hpc
+  obtain ⟨h1, h2, _⟩ := blocked_forever (P := tinyParams) (prog := threeFiles) (n := 1) _ hall 0 pr hj hb more
+  have hI : Inv tinyParams threeFiles 1 t :=
+    inv_reachable rfl _ _ _ (runFrom_reachable _ (run_reachable _ stuckSchedule) more)
+  have hlive : liveP pr = 1 := by cases pr <;> simp [BlockedSend] at hb ⊢ <;> rfl
+  have hge := lsum_ge liveP t.prods 0 pr h1
+  have hpp : t.ppool ≠ 0 := by have := hI.ppool; omega
+  exact ⟨⟨pr, h1, h2⟩, hpp, (waiting_of_ppool hI.closer hpp).1⟩
 
 end Goat.Loop
